@@ -444,20 +444,18 @@ def run(tier: str, seed: int) -> int:
     if not CONV_TRAINABLE:
         chk.note("Conv2D cells cannot be trained on this tree (presyn_receptive raises): conv is checkpointed without trainer")
     # persistence clause for the ring buffers themselves ("ring-buffer contents together with their write
-    # positions"): RecordPersist specification, its TLC runs and graph replays overlap with the trace drivers
-    from concurrent.futures import ThreadPoolExecutor
-    from .record_persist import run_record_persist
-    rp_pool = ThreadPoolExecutor(max_workers=1)
-    rp = None if os.environ.get("G6_SKIP_EXT") else rp_pool.submit(run_record_persist, chk, tier, random.Random(seed + 1))
+    # positions"): RecordPersist specification, its TLC runs and graph replays, in a process of its own
+    from .. import subcheck
+    rp = None if os.environ.get("G6_SKIP_EXT") else subcheck.spawn(PID, "harness.props.record_persist",
+                                                                    "run_record_persist", tier, seed + 1, "record-persist")
     try:
         run_protocol_mc(chk, thorough)
         traces, rej = run_traces(chk, rng, thorough)
         canary(chk, traces, rej)
         probe_deepcopy(chk)
-        if rp is not None:
-            rp.result()
     finally:
-        rp_pool.shutdown(wait=True, cancel_futures=True)
+        if rp is not None:
+            subcheck.join(chk, rp)
     # extensions of the specification beyond the listed property (DESIGN section 7)
     if not os.environ.get("G6_SKIP_EXT"):
         run_module_extras(chk, rng, thorough)
